@@ -97,6 +97,7 @@ type TableInfo struct {
 
 // Module is a generated module.
 type Module struct {
+	Enc        *wasmenc.Module `json:"-"` // structured form (for structure-aware mutation); not part of replay files
 	Bytes      []byte
 	Funcs      []FuncInfo
 	Globals    []GlobalInfo
